@@ -16,6 +16,7 @@ class Doc(object):
         self.depth = 0
         self.max_depth = 0
         self.has_v3 = False
+        self.inner = []
 
     def emit(self, s, kind=None):
         start = self.pos
@@ -105,10 +106,15 @@ def gen_scalar(r, d, v3, depth=0):
         d.depth += 1
         d.max_depth = max(d.max_depth, d.depth)
         d.emit('<<', 'gopen')
-        d.emit('ver:"3.0"\n')
+        d.emit('ver:"')
+        vstart = d.emit('3.0')
+        d.emit('"\n')
         d.emit('q', 'name')
         d.emit('\n')
+        d.has_v3 = False
         gen_scalar(r, d, True, depth + 2)
+        d.inner.append((vstart, vstart + 3, d.has_v3))     # (span of the inner version, inner rows hold a 3.0-only value)
+        d.has_v3 = True
         d.emit('\n')
         d.emit('>>', 'gclose')
         d.depth -= 1
